@@ -115,6 +115,11 @@ def _name_extent(s, start):
         if c == '\\':
             i += 2
             continue
+        if c == '%':
+            # a comment runs to the end of its line: braces in it do not count
+            while i < len(s) and s[i] not in '\n\r':
+                i += 1
+            continue
         depth += (c == '{') - (c == '}')
         i += 1
     return start, (i - 1 if depth == 0 else len(s))
